@@ -60,3 +60,22 @@ Example C08_nonvacuous :
   profit tb_up (s Back RsWinner 3) = 117 /\ profit tb_down (s Lay RsWinner 3) = -117 /\
   cleared tb_up [2350; -1000; -500] 5 100 = (850, 43, 3) /\ cleared tb_up [-10] 5 100 = (-10, 0, 1).
 Proof. vm_compute. repeat split; reflexivity. Qed.
+
+(* ---- Blotter.process_closed_market: which runner of the closing book settles an order (Settle.closed_result; compared with the real blotter on
+   generated closing books, including handicap markets that list one selection on several lines with different results) ---- *)
+(* every runner is listed once and the order's (selection, handicap) is among them: the order gets exactly that runner's result *)
+Theorem C08_settled_by_own_runner : forall rs k r acc, NoDup (map fst rs) -> In (k, r) rs -> closed_result rs k acc = r.
+Proof. exact closed_result_unique. Qed.
+Print Assumptions C08_settled_by_own_runner.
+(* no runner on the order's line: nothing is copied (the order keeps "no result", profit 0 by C08_zero_for_unmatched_and_removed) *)
+Theorem C08_unlisted_line_not_settled : forall rs k acc, ~ In k (map fst rs) -> closed_result rs k acc = acc.
+Proof. exact closed_result_absent. Qed.
+Print Assumptions C08_unlisted_line_not_settled.
+(* runners of other selections and of the same selection at another handicap play no part, wherever they are listed and whatever their result *)
+Theorem C08_other_lines_irrelevant : forall rs k acc, closed_result rs k acc = closed_result (filter (fun x => runner_key_eqb k (fst x)) rs) k acc.
+Proof. exact closed_result_only_own_line. Qed.
+Print Assumptions C08_other_lines_irrelevant.
+Example C08_handicap_lines_example :
+  let rs := [((1, -15), RsWinner); ((1, 5), RsLoser); ((2, -15), RsLoser); ((2, 5), RsRemoved)] in
+  NoDup (map fst rs) /\ closed_result rs (1, -15) RsNone = RsWinner /\ closed_result rs (1, 5) RsNone = RsLoser /\ closed_result rs (2, 5) RsNone = RsRemoved /\ closed_result rs (1, 25) RsNone = RsNone.
+Proof. split; [|vm_compute; repeat split]. repeat constructor; cbn; intuition congruence. Qed.
